@@ -17,7 +17,7 @@ INF = 99
 FWD = {
     'L1': lambda x: 2 * x + 1, 'L2': lambda x: 3 * x + 2, 'L3': lambda x: x + 10,
     'L4': lambda x, y: x + 3 * y + 5, 'L5': lambda x: 2 * x - 7, 'L6': lambda x: x,
-    'L7': lambda x: x + 100, 'L8': lambda x: 3 - x,
+    'L7': lambda x: x + 100, 'L8': lambda x: 3 - x, 'L9': lambda x, y: 5 * x - 2 * y + 1,
 }
 INV = {
     'L1': lambda y: (y - 1) / 2, 'L3': lambda y: y - 10, 'L6': lambda y: y, 'L8': lambda y: 3 - y,
@@ -25,12 +25,12 @@ INV = {
 MENU = {
     'L1': (('d1.a',), 'd2.a', True), 'L2': (('d2.a',), 'd3.a', False), 'L3': (('d1.b',), 'd3.a', True),
     'L4': (('d1.a', 'd1.b'), 'd2.b', False), 'L5': (('d3.a',), 'd1.a', False), 'L6': (('d2.b',), 'd3.b', True),
-    'L7': (('d2.a',), 'd2.b', False), 'L8': (('d3.b',), 'd1.b', True),
+    'L7': (('d2.a',), 'd2.b', False), 'L8': (('d3.b',), 'd1.b', True), 'L9': (('d2.a', 'd3.a'), 'd1.b', False),
 }
 
 
 class LWorld(object):
-    def __init__(self, initial):
+    def __init__(self, initial, initial_coll=()):
         from glue.core import Data, DataCollection
         self.dc = DataCollection()
         self.data = {}
@@ -42,6 +42,8 @@ class LWorld(object):
             self._add_comp(c)
         self.linkobj = {}
         self.blocks = []
+        for d in sorted(initial_coll):
+            self.dc.append(self.data[d])
 
     def _add_comp(self, c):
         d = self.data[c.split('.')[0]]
@@ -196,7 +198,7 @@ class LWorld(object):
 
 
 def replay_one(beh):
-    w = LWorld(beh['initial'])
+    w = LWorld(beh['initial'], beh.get('initial_coll', ()))
     try:
         for i, stp in enumerate(beh['steps']):
             try:
@@ -222,7 +224,7 @@ def replay_chunk(items, extra):
         res = replay_one(it)
         if res is not None:
             step, comp, exp, act, note = res
-            out.append(Divergence({'spec': 'Links', 'initial': it['initial'], 'steps': it['steps']}, step, comp, exp, act,
+            out.append(Divergence({'spec': 'Links', 'initial': it['initial'], 'initial_coll': it.get('initial_coll', []), 'steps': it['steps']}, step, comp, exp, act,
                                   kind=comp.split('[')[0], note=note).to_json())
     gc.collect()
     return {'div': out, 'steps': steps, 'n': len(items)}
